@@ -77,10 +77,32 @@ func pcOf(path []string) int {
 
 const maxDrain = 60
 
+// WaitVerdictsNotReproduced counts verdicts reached by waiting that a second run of the same history did not repeat.
+var WaitVerdictsNotReproduced int64
+
 // run replays a path on a fresh world, checks all invariants in the reached state, then drains
 // the parked jobs in canonical order and checks the quiescent state.
 func run(sc *Scenario, path []string, convBin string) (res result) {
 	res = run1(sc, path, convBin)
+	// "a job never completes" / "work without a job" are verdicts reached by waiting: a machine that is
+	// overloaded far enough can produce them for a correct service.  A defect produces them again when the
+	// same history is run again; only then do they stand
+	for _, v := range res.viol {
+		if v.Symptom == "c09.job-never-completes" || v.Symptom == "c09.work-claimed-without-a-job" {
+			again := run1(sc, path, convBin)
+			confirmed := false
+			for _, v2 := range again.viol {
+				if v2.Symptom == v.Symptom {
+					confirmed = true
+				}
+			}
+			if !confirmed {
+				atomic.AddInt64(&WaitVerdictsNotReproduced, 1)
+				res = again
+			}
+			break
+		}
+	}
 	if res.retry {
 		res.hardErr = fmt.Errorf("replay divergence: the service did not make the named tag picks of [%s]", res.pathDesc)
 	}
